@@ -14,8 +14,9 @@ BUDGET = {"quick": 640, "thorough": 8000}
 MIN_PER_SHARD = 10
 RULE = (
     "Hypothesis draws a world (1-3 envelopes with Fock cut-offs 2-4, 0-2 custom states of dimension 2-3, "
-    "usually one composite envelope), a storage layout (each envelope separate or combined in F(x)P / P(x)F "
-    "order; 0-2 composite product spaces over generated member subsets in generated order; every block at "
+    "sometimes 1-2 bare Fock/polarization objects without envelope; usually one composite envelope over all or "
+    "part of the units, sometimes a second independent one over the rest), a storage layout (each envelope separate or combined in F(x)P / P(x)F "
+    "order; 0-3 composite product spaces per composite envelope over generated member subsets in generated order; every block at "
     "label/vector/matrix level) holding a generated state per block (basis, product, Haar-entangled pure, "
     "mixed, nearly pure, amplitude-cancelling, low-photon entangled), the contraction setting, and 1-3 single-subsystem "
     "operations (every Fock / polarization / custom-state type, angles in [-4pi,4pi], complex |alpha|<=1, "
